@@ -45,6 +45,15 @@ pub fn generate(tier: &str, rng: &mut Rng) -> Vec<Spec> {
     for a in &d1 { for b in &d1 { ctr += 1; if ctr % (if thorough { 7 } else { 61 }) == 0 { v.push(pulls(&Chain(Box::new(a.clone()), Box::new(b.clone())), k)); } } }
     // random deeper trees
     for _ in 0..(if thorough { 6000 } else { 1500 }) { let d = 3 + rng.below(3) as usize; let e = random_expr(rng, d); v.push(pulls(&e, k + 8)); }
+    // counts at the end of the integer range and just past 2^32 (the model sees them capped at 40): never a huge
+    // skip over an endless source (it would not terminate)
+    let huge = [usize::MAX, usize::MAX - 1, (1usize << 32) + 2, 1usize << 32, (1usize << 16) + 1];
+    for (i, h) in huge.iter().enumerate() { for l in [List(vec![]), List(vec![7]), List(vec![7, 8, 9]), Inc(3, 2)] {
+        let b = || Box::new(l.clone());
+        let mut es = vec![Take(b(), *h), PadE(b(), *h), PadC(b(), 5, *h), Take(Box::new(PadE(b(), *h)), 5), Chain(Box::new(Rep(4, *h)), b()), Take(Box::new(Rep(4, *h)), 3), Take(Box::new(Take(b(), *h)), *h)];
+        if !matches!(l, Inc(..)) { es.push(Skip(b(), *h)); es.push(PadE(Box::new(Skip(b(), *h)), 2)); }
+        for e in es { v.push(pulls(&e, k + i)); }
+    } }
     // peek / cache roots: every interleaving of the two root operations up to length 6 (7 thorough)
     let inners = [List(vec![]), List(vec![1]), List(vec![1, 2, 3]), Take(Box::new(Inc(0, 1)), 2), PadE(Box::new(List(vec![4, 5])), 1), Chain(Box::new(List(vec![1])), Box::new(List(vec![2])))];
     for inner in &inners {
@@ -61,18 +70,20 @@ pub fn exec(s: &Spec, stats: &mut Stats) -> Outcome {
     let ops = s.strs("ops");
     stats.bump(format!("depth:{}", e.depth())); stats.bump(format!("root:{}", s.get("e").split('(').next().unwrap()));
     let mut res: Vec<Option<i64>> = vec![]; let mut panic = false;
+    let leaves: std::cell::RefCell<crate::dynsrc::Leaves> = std::cell::RefCell::new(vec![]);
     let r = catch(|| {
         let mut out = vec![];
         match &e {
-            Peek(inner) => { let mut p = Peek::<_, i64>::from(inner.build());
+            Peek(inner) => { let mut p = Peek::<_, i64>::from(inner.build_with(&mut leaves.borrow_mut()));
                 for o in &ops { match o.as_str() { "p" => out.push(p.source()), "k" => out.push(p.peek().cloned()), _ => panic!("op {} not available on a peek root", o) } } }
-            Cache(inner) => { let mut c = Cache::<_, i64>::from(inner.build());
+            Cache(inner) => { let mut c = Cache::<_, i64>::from(inner.build_with(&mut leaves.borrow_mut()));
                 for o in &ops { match o.as_str() { "p" => out.push(c.source()), "c" => out.push(c.cached().cloned()), _ => panic!("op {} not available on a cache root", o) } } }
-            _ => { let mut src = e.build(); for o in &ops { match o.as_str() { "p" => out.push(src.source()), _ => panic!("op {} needs a peek/cache root", o) } } }
+            _ => { let mut src = e.build_with(&mut leaves.borrow_mut()); for o in &ops { match o.as_str() { "p" => out.push(src.source()), _ => panic!("op {} needs a peek/cache root", o) } } }
         }
         out
     });
     match r { Ok(o) => res = o, Err(_) => { panic = true; stats.panics += 1; } }
+    let left: Option<Vec<usize>> = if e.has_cycle() || panic { None } else { Some(leaves.borrow().iter().map(|h| h.borrow().len()).collect()) };
     let cops = clist(&ops, |o| match o.as_str() { "p" => "OPull".into(), "k" => "OPeek".into(), _ => "OCached".to_string() });
-    Outcome::Case(format!("mk {} {} {} {}", e.coq(), cops, clist(&res, |o| copt(o, |z| cz(*z))), cbool(panic)))
+    Outcome::Case(format!("mk {} {} {} {} {}", e.coq(), cops, clist(&res, |o| copt(o, |z| cz(*z))), copt(&left, |l| clist(l, |n| format!("{}%nat", n))), cbool(panic)))
 }
